@@ -19,7 +19,7 @@ def _shared(t):
     return any(a[0] in ("attr", "global", "param", "self") or (a[0] == "sub" and _shared(a[1])) for a in alts(t))
 
 
-def local_dict_stores(fn, b, pcs, name):
+def local_dict_stores(fn, b, pcs, name, _depth=0):
     """[(key, value term, literals, stmt)] for ``name = {...}`` / ``name[const] = v`` in fn, in statement order.
     Raises AnalysisError for anything that is not modelled (update/pop/setdefault, non-constant keys, stores in loops)."""
     cfg = cfg_of(fn)
@@ -29,6 +29,11 @@ def local_dict_stores(fn, b, pcs, name):
         if isinstance(st, ast.Assign):
             for tg in st.targets:
                 if isinstance(tg, ast.Name) and tg.id == name:
+                    if isinstance(st.value, ast.Name) and st.value.id != name and len(b.rd.all_defs(st.value.id)) == 1 and _depth < 3:
+                        # fparams = other_local: the entries collected under that name (a helper's result after inlining)
+                        for k_, v_, pc_, s_ in local_dict_stores(fn, b, pcs, st.value.id, _depth + 1):
+                            out.append((k_, v_, pc_, s_))
+                        continue
                     tv = b.term(st.value, st)
                     ents = dict_entries(tv)
                     if ents is None and _shared(tv):
